@@ -90,6 +90,15 @@ Section Reduction.
   | asteps_refl c : asteps c c
   | asteps_snoc c c' i c'' : asteps c c' -> astep c' i c'' -> asteps c c''.
 
+  (* ---- the same executions with their schedules (which thread moved at each step) *)
+  Inductive vrun : cfg -> list nat -> cfg -> Prop :=
+  | vrun_nil c : vrun c [] c
+  | vrun_cons c i c' s c'' : vstep c i c' -> vrun c' s c'' -> vrun c (i :: s) c''.
+
+  Inductive arun : cfg -> list nat -> cfg -> Prop :=
+  | arun_nil c : arun c [] c
+  | arun_snoc c s c' i c'' : arun c s c' -> astep c' i c'' -> arun c (s ++ [i]) c''.
+
   (* ---- the discipline: the code of a thread is a sequence of exclusive critical sections, each touching only the
      fields of its own lock, with no access outside a section (what [single_section] + sync.Mutex give for the
      exported store methods); [MOut] = holding nothing, [MIn m] = inside the section on m *)
@@ -144,6 +153,12 @@ Section Reduction.
   Definition quiescent (c : cfg) : Prop :=
     forall i t, nth_error (thrs c) i = Some t -> fst (fst t) = [].
 End Reduction.
+
+(* l1 is obtained from l2 by deleting elements (order kept) *)
+Inductive sublist {A} : list A -> list A -> Prop :=
+| sl_nil : sublist [] []
+| sl_skip x l1 l2 : sublist l1 l2 -> sublist l1 (x :: l2)
+| sl_keep x l1 l2 : sublist l1 l2 -> sublist (x :: l1) (x :: l2).
 
 (* ---- the relay instance: which generated bodies must obey the discipline (evaluated by vm_compute on LockGen.prog) *)
 Definition msec_sfn (s : sstmt) : bool := msec_fn sname_eqb guard_of s.
